@@ -155,6 +155,16 @@ func c07RecipeFormatted(kind int, seed int64, rec *visitRec) (f *jen.File, small
 				m[p] = []string{"x", "y", "z", "nm"}[r.Intn(4)]
 			}
 		}
+		if r.Intn(3) == 0 {
+			// the table also lists vendored copies of some of the paths (go list reports them), under other names:
+			// they are hints for other paths, and have no say in how the paths used here are called
+			for i, p := range paths {
+				if i%2 == 0 {
+					m["x.y/app/vendor/"+p] = fmt.Sprintf("va%d", i)
+					m["x.y/tool/vendor/"+p] = fmt.Sprintf("vb%d", i)
+				}
+			}
+		}
 		f.ImportNames(m)
 		for i, p := range paths {
 			switch r.Intn(4) {
